@@ -10,6 +10,8 @@ Decided:
   C16.params  the frame's sample rate / channels / bits-per-sample handed out come from the frame's own header
   C16.count   the frame counter is advanced once per successful write and wraps to 0 when exhausted
   C16.order   header field order (shared with C03.rfc) - the reader reads the escapes in the order the writer emits them
+  C16.params  (also) audio::Frame::resize stores bits_per_sample, channels and channel_len on every path to its return
+  C16.cast    narrowing `as` casts in stream.rs / crc.rs are shown lossless or audited (castlib)
 Not decided: behaviour on arbitrary garbage and buffer splits (value-level).
 """
 from rules.common import *
@@ -81,7 +83,10 @@ def header_order(F, rep, P):
                     if fl and fl[-1] in ("block_size", "sample_rate"):
                         sw.append((bi, fl[-1]))
         names = [n for _, n in sw]
-        rep.check(P, "writer emits the block-size escape before the sample-rate escape", names == ["block_size", "sample_rate"] and b.dominates(sw[0][0], sw[1][0]), loc_of(b), str(names))
+        # every look at block_size precedes (dominates) every look at sample_rate; either may be examined more than once
+        bsz = [bi for bi, n in sw if n == "block_size"]
+        srt = [bi for bi, n in sw if n == "sample_rate"]
+        rep.check(P, "writer emits the block-size escape before the sample-rate escape", bool(bsz) and bool(srt) and names == ["block_size"] * len(bsz) + ["sample_rate"] * len(srt) and all(b.dominates(bsz[0], x) for x in srt) and not any(b.dominates(y, x) for x in bsz for y in srt), loc_of(b), str(names))
 
 
 def frame_params_rule(F, rep, R):
